@@ -120,6 +120,14 @@ def monitor_jobs(tier):
                 continue
             out.append({"prop": PROP, "cfg": cfg, "order": "asc", "base": "B1", "scripts": A.stamp(sc),
                         "mode": {"k": 1 if tier == "quick" else 2, "cap": 600, "depth": 60, "audit": 0}})
+    # accounts whose folder-delete events carry no id (matched by path in the event manager): folder histories
+    from .c03 import OT_ALPHA
+    from ..world import BASES
+    for h in A.valid_histories(BASES["B4"], OT_ALPHA, 2):
+        if any(op[0] == "delete" for op in h):
+            for sc in ([h, []], [[], h]):
+                out.append({"prop": PROP, "cfg": "ot", "order": "asc", "base": "B4", "scripts": A.stamp(sc),
+                            "mode": {"k": 1 if tier == "quick" else 2, "cap": 600, "depth": 60, "audit": 0}})
     return out
 
 
